@@ -196,6 +196,54 @@ TRIGGERS = {
  'S3-C10': ('datahintsignset.py: Iterator added to the quasi-iterable signs',
             'Iterator[T] + an iterator that structurally is a Collection '
             '(__len__ + __contains__): one item consumed per check'),
+ 'S3-C11': ('pep593.py is_hint_pep593_beartype: the isinstance() test on the '
+            'first metadatum moved out of the try/except',
+            'Annotated[...] whose first metadatum raises when its __class__ is '
+            'read (dead weakref.proxy, unbound lazy proxy): ReferenceError / '
+            'RuntimeError leaks from every entry point'),
+ 'S3-C12': ('_valeutilsnip.py: IsEqual code gets an identity fast path '
+            '("obj is X or obj == X")',
+            'the checked object is the very object subscripting IsEqual[...] '
+            'and is not equal to itself (nan, __eq__ returning False): code '
+            'accepts, is_valid() rejects'),
+ 'S3-C13': ('decorbuiltindescriptor.py: a property whose getter is '
+            'unannotated is returned unchanged',
+            'property with an unannotated getter and an annotated setter / '
+            'deleter: setter values unchecked through the class route'),
+ 'S3-C14': ('checkmake.py + checkexprscope.py: checkers memoised whenever '
+            'the scope holds no unresolved proxy',
+            'a stringified reference given to is_bearable / die_if_unbearable, '
+            'resolvable at first sight, then the same spelling where the name '
+            'means another class (redefinition, local classes): answered with '
+            'the first referent'),
+ 'S3-C15': ('pep695.py resolve_func_scope_pep695: pooled scope dict released '
+            'before func_scope.update(scope)',
+            'thread A decorating a PEP 695 callable with stringified '
+            'annotations preempted after the release while thread B decorates '
+            'another: A merges B\'s type parameters'),
+ 'S3-C16': ('_clawimpfileloader.py: modules hooked under strategy O0 are '
+            'compiled untransformed (still cached under the marker)',
+            'a run hooked with BeartypeConf(strategy=O0), then a run with a '
+            'checking conf over the same tree: reuses the untransformed .pyc, '
+            'every check dropped'),
+ 'S3-C17': ('utilmapfrozen.py: FrozenDict hash from tuple(items) instead of '
+            'frozenset(items)',
+            'equal hint_overrides with >= 2 entries written in different '
+            'orders: equal configurations with different hashes, memo missed'),
+ 'S3-C18': ('redmain.py reduce_hint: the override reducer is consulted on '
+            'the first pass only',
+            'an overridden hint reached through another reduction '
+            '(Annotated[float, ...], NewType over float, Bag[float]) under '
+            'the tower / hint_overrides'),
+ 'S3-C19': ('doorpep484585tuple.py: fixed-tuple branch lost its "other side '
+            'is a fixed tuple too" guard',
+            'Tuple[()] <= Literal[1], Tuple[bool] <= Optional[T], Tuple[X] <= '
+            'Annotated[object, ...]: True although no tuple satisfies the '
+            'right side'),
+ 'S3-C20': ('infercollectionbuiltin.py: inference of hashable builtin '
+            'collections memoised by equality',
+            '(1, "a") then (1.0, "a") (or frozenset({3}) then {3.0}) in one '
+            'process: the second gets the first one\'s hint'),
  'S2-C11': ('redpep484585itemsview.py: ItemsView child hints unpacked without '
             'the validating getter',
             'ItemsView subscripted with the wrong number of child hints '
@@ -346,6 +394,25 @@ HISTORY = {
            'already consumes such objects on the unchanged tree (new open '
            'finding, keyed by hint family) - the seeded Iterator[T] variant '
            'is caught under its own key',
+ 'S3-C11': 'MISSED at first contact (hostile objects were used as hints, never '
+           'as PEP 593 metadata); directed block: metadata whose inspection '
+           'raises (dead weakref.proxy, unbound lazy proxy, raising '
+           '__class__) in seven Annotated shapes through every entry point - '
+           'caught',
+ 'S3-C12': 'MISSED at first contact (IsEqual operands and checked objects '
+           'were never the same self-unequal object); NAN / NeverEq() / '
+           'AlwaysEq() singletons in both pools - caught',
+ 'S3-C14': 'MISSED at first contact (string references reached the door '
+           'functions only by chance next to a redefinition); the redefine '
+           'family always carries one, plus a directed history - caught',
+ 'S3-C15': 'MISSED at first contact (no PEP 695 callable among the '
+           'operations); added decorate-pep695+call - caught by the '
+           'ownership sanitizer in every run',
+ 'S3-C16': 'MISSED at first contact (no configuration with another strategy '
+           'in the pool); strategy O0 / On and the tower added - caught '
+           '(pyc-marker-mismatch)',
+ 'S3-C17': 'MISSED at first contact (hint_overrides had one entry at most); '
+           'equal multi-entry mappings in different insertion orders - caught',
  'S2-C11': 'MISSED at first contact (wrong-arity forms existed for dict, '
            'list, tuple, type only); every subscriptable generic of '
            'collections.abc / collections / builtins is now subscripted with '
